@@ -7,9 +7,11 @@
 package c04
 
 import (
+	"encoding/json"
 	"fmt"
 	"math/rand"
 	"os"
+	"os/exec"
 	"path/filepath"
 	"sort"
 	"strconv"
@@ -1179,6 +1181,103 @@ func (e *env) witnessCase() error {
 	return e.opRead(e.tgts[0])
 }
 
+// isConc says which case indices are concurrent ForceRollup cases (big = enough series to overlap).
+func isConc(c *core.Ctx, i int) (conc, big bool) {
+	switch {
+	case c.Args["mode"] == "conc": // stress: every case is a concurrent ForceRollup case
+		return true, i%10 == 0
+	case i == 2 || i%400 == 2:
+		return true, true
+	case i%40 == 6:
+		return true, false
+	}
+	return false, false
+}
+
+// runInChild runs case i in a child process of the same binary and folds its streams into c.
+// The concurrent cases run real goroutines of lindb; a Go runtime `fatal error` (data race on a map)
+// cannot be recovered in-process and would take the whole run down.
+func runInChild(c *core.Ctx, i int) {
+	exe, err := os.Executable()
+	if err != nil {
+		c.Fail("impl-error", "os.Executable: "+err.Error())
+		return
+	}
+	tmp, err := os.MkdirTemp("", "lvh-c04-child-*")
+	if err != nil {
+		c.Fail("impl-error", err.Error())
+		return
+	}
+	defer os.RemoveAll(tmp)
+	args := []string{"run", "rollup", "-seed", strconv.FormatInt(c.Seed, 10), "-n", strconv.Itoa(c.N), "-tier", c.Tier,
+		"-out", tmp, "-case", strconv.Itoa(i), "-arg", "child=1"}
+	for k, v := range c.Args {
+		if k != "child" {
+			args = append(args, "-arg", k+"="+v)
+		}
+	}
+	cmd := exec.Command(exe, args...)
+	cmd.Env = os.Environ()
+	out, runErr := cmd.CombinedOutput()
+	if runErr != nil {
+		txt := string(out)
+		first := txt
+		if j := strings.IndexByte(first, '\n'); j >= 0 {
+			first = first[:j]
+		}
+		if strings.Contains(txt, "fatal error: concurrent map") && strings.Contains(txt, "kv/version.(*rollup).") {
+			at := ""
+			for _, l := range strings.Split(txt, "\n") {
+				if strings.Contains(l, "kv/version.(*rollup).") {
+					at = strings.TrimSpace(l)
+					break
+				}
+			}
+			c.Branch("concurrent-child-map-race")
+			c.Fail("concurrent-rollup-reference-map-race", fmt.Sprintf("one Store.ForceRollup over %s: the process dies with %q in %s (rollup jobs of several source families into one target family)", "several families", first, at))
+			return
+		}
+		c.Fail("concurrent-rollup-crash", fmt.Sprintf("child process of case %d failed: %v: %.600s", i, runErr, txt))
+		return
+	}
+	rd := func(n string) []string {
+		b, _ := os.ReadFile(filepath.Join(tmp, n))
+		return strings.Split(strings.TrimRight(string(b), "\n"), "\n")
+	}
+	ops, impl := rd("ops.txt"), rd("impl.txt")
+	for k := 0; k < len(ops) && k < len(impl); k++ {
+		if ops[k] == "" || strings.HasPrefix(ops[k], "#") {
+			continue
+		}
+		c.Op(ops[k], impl[k])
+	}
+	for _, l := range rd("oracle.txt") {
+		if !strings.HasPrefix(l, "FAIL ") {
+			continue
+		}
+		rest := l[strings.Index(l, "key=")+4:]
+		key, desc := rest, ""
+		if j := strings.Index(rest, " :: "); j >= 0 {
+			key, desc = rest[:j], rest[j+4:]
+		}
+		c.Fail(key, desc)
+	}
+	var st struct {
+		Branches map[string]int `json:"branches"`
+		Distinct int            `json:"distinct_nontrivial"`
+	}
+	if b, err := os.ReadFile(filepath.Join(tmp, "stats.json")); err == nil && json.Unmarshal(b, &st) == nil {
+		for k, n := range st.Branches {
+			for j := 0; j < n; j++ {
+				c.Branch(k)
+			}
+		}
+		if st.Distinct > 0 {
+			c.NonTrivial()
+		}
+	}
+}
+
 func (a area) Run(c *core.Ctx) error {
 	kv.VerifInstallCommitHook(nil)
 	for i := 0; i < c.N; i++ {
@@ -1187,7 +1286,12 @@ func (a area) Run(c *core.Ctx) error {
 		}
 		c.Begin(i)
 		rng := c.Rng(i)
-		if i%4 == 1 {
+		conc, big := isConc(c, i)
+		if conc && c.Args["child"] != "1" {
+			runInChild(c, i)
+			continue
+		}
+		if !conc && i%4 == 1 {
 			arithCase(c, rng)
 			continue
 		}
@@ -1203,12 +1307,10 @@ func (a area) Run(c *core.Ctx) error {
 				}
 			}()
 			switch {
+			case conc:
+				err = e.concCase(big)
 			case i == 0:
 				err = e.witnessCase()
-			case i == 2 || i%400 == 2:
-				err = e.concCase(true)
-			case i%40 == 6:
-				err = e.concCase(false)
 			case i%8 == 3:
 				e.unguarded = true
 				e.failKey = "unguarded-pair-differs-from-recorded-behaviour"
